@@ -241,9 +241,31 @@ func (c *Ctx) checkMultiCtor(rule, name, typ string) {
 	})
 	loopOK := false
 	why := "the base list is not built by one loop over all children"
+	// the base list may be built by a same-package helper that is handed the children list
+	// (`multiBaseReporters: newBase(r)`): the loop is then looked for in the helper, over its parameter
+	loopFn, loopParam := fn, param
+	if call, isCall := base.(*ssa.Call); isCall {
+		var g *ssa.Function
+		if g = staticCallee(call); g == nil {
+			if mc, isMC := call.Call.Value.(*ssa.MakeClosure); isMC {
+				g, _ = mc.Fn.(*ssa.Function)
+			}
+		}
+		if g != nil && g.Blocks != nil && (g.Pkg == fn.Pkg || g.Parent() == fn) {
+			for ai, a := range call.Call.Args {
+				if canon(stripConv(a)) == param && ai < len(g.Params) {
+					rets := returnsOf(g)
+					if len(rets) == 1 && len(rets[0].Results) == 1 {
+						loopFn, loopParam = g, ssa.Value(g.Params[ai])
+						base = stripConv(canon(rets[0].Results[0]))
+					}
+				}
+			}
+		}
+	}
 	if phi, isPhi := base.(*ssa.Phi); isPhi {
-		for _, fl := range fullIndexLoops(fn) {
-			if fl.list != accessPath(param) || phi.Block() != fl.header {
+		for _, fl := range fullIndexLoops(loopFn) {
+			if fl.list != accessPath(loopParam) || phi.Block() != fl.header {
 				continue
 			}
 			lp := fl.loop
